@@ -3,11 +3,30 @@ CONFIG = {
     "level": "proof",
     "passes": [
         {"name": "codec", "pkg": "c13", "bin": "c13", "driver": "drv_c13"},
+        # the designation layer: histories on a private BBSHOME (what a url line / listing id / cross-post
+        # reference leads back to); a replay holds the whole history since its `reset`
+        {"name": "designate", "pkg": "c13d", "bin": "c13d", "driver": "drv_c13", "reset_prefix": "reset"},
     ],
     "trusted_base": [
         "fmt %d/%03X, strconv.Atoi/ParseUint: modelled by digit functions; agreement checked by the correspondence on every run",
+        "designation pass: go/cmd/c13d reads the board index (.DIR records via encoding/binary into ptttype.FileHeaderRaw) and the board "
+        "directory itself and extracts the last line of the stored article; URL_PREFIX and STR_URL_DISPLAYNAME_BIG5 are handed to the "
+        "model in the `reset` line (the harness refuses a line that does not state the values the code runs with)",
+        "resolveURL/resolveLine (strip display name, URL_PREFIX, board, '.html' or decode the 8 characters) is the reader's side of the "
+        "property, not repository code: its Go counterpart in c13d uses the real bbs.ArticleID.ToRaw and is compared with the model on every url line",
+        "go/cmd/c13 hands a replay that is a designation history over to the sibling binary c13d (./check routes corpus-recorded replays to the first pass)",
     ],
     "modelled": ["Filename_t.ToAidu/Type/CreateTime/Postfix", "Aidu.ToFN/ToAidc/Type/Time/Postfix", "Aidc.ToAidu",
-                 "bbs.ToArticleID", "bbs.ArticleID.ToRaw"],
-    "assumptions": ["creation times in the proved round trip are 10-digit and below 2^31 (Time4 is a signed 32-bit clock)"],
+                 "bbs.ToArticleID", "bbs.ArticleID.ToRaw",
+                 "ptt.GetWebURL (both USE_AID_URL values) and the url line ptt.DoPostArticle appends (webURL, urlLine)",
+                 "bbs.NewArticleSummaryFromRaw: ArticleID / IsDeleted / Filename of a listing entry and of the answer of CreateArticle / CrossPost (listEntry)",
+                 "the #<aidc> reference ptt.crossPostWriteFile prints (aidcText)",
+                 "NOT modelled here: the order of steps inside DoPostArticle (Stampfile, StampfileU, rename) — the designate pass observes its "
+                 "result (final name vs. name in the stored line) and the property oracle judges it; cursors `time@id` (C06); the listing's paging (C06)"],
+    "assumptions": ["creation times in the proved round trip are 10-digit and below 2^31 (Time4 is a signed 32-bit clock)",
+                    "designation theorems: the board name contains no '/' (board names are [A-Za-z0-9_.-]); URL_PREFIX and the display name are arbitrary byte strings",
+                    "designation histories run at the wall-clock time of the run: names are M.<now..now+3>.A.<random>; G names, the 2^31 boundary and "
+                    "out-of-domain names reach GetWebURL / NewArticleSummaryFromRaw only through the pure ops (constructed headers)",
+                    "the url line is looked for as the LAST line of the stored article (DoPostArticle appends it last); the copy of a cross-post carries the "
+                    "source's url line in its body and none of its own — only its #<aidc> reference is judged"],
 }
